@@ -87,6 +87,17 @@ func relaySetup(t *testing.T) {
 	binary.BigEndian.PutUint16(fr, uint16(len(packed)))
 	copy(fr[2:], packed)
 	add("dnsframe", "", fr, 0)
+	// a length-prefixed DNS *response* (QR=1): not a query, so not DNS client traffic - whatever
+	// protocol it is, it has to be relayed like any other bytes, also on port 53
+	rmsg := new(dnsmessage.Msg)
+	rmsg.SetQuestion("example.org.", dnsmessage.TypeA)
+	rmsg.Response = true
+	rmsg.Answer = append(rmsg.Answer, &dnsmessage.A{Hdr: dnsmessage.RR_Header{Name: "example.org.", Rrtype: dnsmessage.TypeA, Class: dnsmessage.ClassINET, Ttl: 60}, A: net.IPv4(192, 0, 2, 1)})
+	rpacked, _ := rmsg.Pack()
+	rfr := make([]byte, 2+len(rpacked))
+	binary.BigEndian.PutUint16(rfr, uint16(len(rpacked)))
+	copy(rfr[2:], rpacked)
+	add("dnsresp", "", rfr, 0)
 	for _, h := range relayCorpus {
 		if len(h.data) == 0 {
 			t.Fatalf("corpus entry %s empty", h.kind)
